@@ -2,7 +2,7 @@
 beside it), TLC-exported timed scripts, the synctest bubble driver, and trace validation of the recorded
 runs against AttackContract restricted to the clauses of the property being checked."""
 import glob, json, os
-from . import core
+from . import core, acmd
 from .main import report_rejections, report_crashes
 
 
@@ -73,6 +73,8 @@ def run(ctx, prop, bias):
             for start, lines, off in srej:
                 ctx.drift.append("scripted run of processAttack differs from Pump!Expected: " + lines[off - 1].strip()[:200])
         ctx.coverage["pump_scripts_validated"] = len(plines) - 1
+    if prop == "C03":   # its anchors include the -workers / -max-workers flags
+        acmd.run_part(ctx, vh)
     # 3c. C04 under the real scheduler and the real runtime timers, with the timer-channel semantics of both go.mod generations
     rt_cases = []
     if prop == "C04":
